@@ -6,6 +6,7 @@
   read-writer) carries the weight for this property.
 -/
 import FBV.Model.Adapters
+import FBV.Model.Async
 namespace FBV.C13
 open FBV
 
@@ -119,5 +120,61 @@ theorem take_read_no_write (oc : Bool) (x : TakeS) (n : Nat) :
       cases hsub : usizeSub oc x.t.remaining m with
       | ok r => simp [hs, hsub, h1]
       | panic => simp [hs, hsub, h1]
+
+/-! ### tokio adapters -/
+
+theorem asrw_pollWrite_facts (s : ASRW) (b : List Byte) :
+    (s.pollWrite b).1.data = s.data ∧ (s.pollWrite b).1.racts = s.racts ∧ (s.pollWrite b).1.facts = s.facts ∧
+    ∃ txt, (s.pollWrite b).1.log = s.log ++ [txt] := by
+  simp only [ASRW.pollWrite]
+  cases hw : s.wacts with
+  | nil => simp
+  | cons a rest => cases a <;> simp
+
+theorem asrw_pollFlush_facts (s : ASRW) (tag : String) :
+    (s.pollFlush tag).1.data = s.data ∧ (s.pollFlush tag).1.racts = s.racts ∧ (s.pollFlush tag).1.wacts = s.wacts ∧
+    ∃ txt, (s.pollFlush tag).1.log = s.log ++ [txt] := by
+  simp only [ASRW.pollFlush]
+  cases hf : s.facts with
+  | nil => simp
+  | cons a rest => cases a <;> simp
+
+/-- async chain: `poll_write` / `poll_flush` / `poll_shutdown` issue exactly one inner poll, return its result (count, error
+    or Pending) unchanged, and never touch `first` or the read side of the wrapped stream -/
+theorem achain_write {σ₁ : Type} (c : AChain σ₁ ASRW) (b : List Byte) :
+    (c.pollWrite b).2 = (c.second.pollWrite b).2 ∧ (c.pollWrite b).1.first = c.first ∧
+    (c.pollWrite b).1.second.data = c.second.data ∧ (c.pollWrite b).1.second.racts = c.second.racts ∧
+    ∃ txt, (c.pollWrite b).1.second.log = c.second.log ++ [txt] := by
+  obtain ⟨h1, h2, _, h4⟩ := asrw_pollWrite_facts c.second b
+  exact ⟨rfl, rfl, h1, h2, h4⟩
+
+theorem achain_flush {σ₁ : Type} (c : AChain σ₁ ASRW) (tag : String) :
+    (c.pollFlush tag).2 = (c.second.pollFlush tag).2 ∧ (c.pollFlush tag).1.first = c.first ∧
+    (c.pollFlush tag).1.second.data = c.second.data ∧ (c.pollFlush tag).1.second.racts = c.second.racts ∧
+    ∃ txt, (c.pollFlush tag).1.second.log = c.second.log ++ [txt] := by
+  obtain ⟨h1, h2, _, h4⟩ := asrw_pollFlush_facts c.second tag
+  exact ⟨rfl, rfl, h1, h2, h4⟩
+
+/-- async take: the same, and the read allowance is untouched (also across a Pending write) -/
+theorem atake_write (t : ATake ASRW) (b : List Byte) :
+    (t.pollWrite b).2 = (t.inner.pollWrite b).2 ∧ (t.pollWrite b).1.remaining = t.remaining ∧
+    (t.pollWrite b).1.inner.data = t.inner.data ∧ (t.pollWrite b).1.inner.racts = t.inner.racts ∧
+    ∃ txt, (t.pollWrite b).1.inner.log = t.inner.log ++ [txt] := by
+  obtain ⟨h1, h2, _, h4⟩ := asrw_pollWrite_facts t.inner b
+  exact ⟨rfl, rfl, h1, h2, h4⟩
+
+theorem atake_flush (t : ATake ASRW) (tag : String) :
+    (t.pollFlush tag).2 = (t.inner.pollFlush tag).2 ∧ (t.pollFlush tag).1.remaining = t.remaining ∧
+    ∃ txt, (t.pollFlush tag).1.inner.log = t.inner.log ++ [txt] := by
+  obtain ⟨_, _, _, h4⟩ := asrw_pollFlush_facts t.inner tag
+  exact ⟨rfl, rfl, h4⟩
+
+/-- reads never alter the write side: a scripted stream's `poll_read` leaves its write / flush scripts untouched -/
+theorem asrw_pollRead_no_write (s : ASRW) (rb : ReadBuf) :
+    (s.pollRead rb).1.wacts = s.wacts ∧ (s.pollRead rb).1.facts = s.facts := by
+  simp only [ASRW.pollRead]
+  cases hr : s.racts with
+  | nil => simp
+  | cons a rest => cases a <;> simp
 
 end FBV.C13
